@@ -913,6 +913,93 @@ func constants(repo string) string {
 	return b.String()
 }
 
+// ---- count-sized allocation sites -----------------------------------------------------------------
+
+// sizeBounded: the size argument of a make call is a constant, a len(…)/cap(…) of existing data, or arithmetic
+// over such terms (including library helpers applied to them, e.g. hex.EncodedLen(len(sum)))
+func sizeBounded(e ast.Expr) bool {
+	switch x := e.(type) {
+	case *ast.BasicLit:
+		return true
+	case *ast.ParenExpr:
+		return sizeBounded(x.X)
+	case *ast.BinaryExpr:
+		return sizeBounded(x.X) && sizeBounded(x.Y)
+	case *ast.CallExpr:
+		if id, ok := x.Fun.(*ast.Ident); ok && (id.Name == "len" || id.Name == "cap") {
+			return true
+		}
+		if len(x.Args) == 0 {
+			return false
+		}
+		for _, a := range x.Args {
+			if !sizeBounded(a) {
+				return false
+			}
+		}
+		return true
+	}
+	return false
+}
+
+// allocSites lists, for the protocol package, every `make(T, n…)` whose size is not bounded by existing data:
+// "file:func:type:size".  These are the places where a count taken from the input can size an allocation.
+func allocSites(repo string) string {
+	fset := token.NewFileSet()
+	_, _, files := parseDir(fset, filepath.Join(repo, "fluent/protocol"))
+	var sites []string
+	for _, f := range files {
+		fname := filepath.Base(fset.Position(f.Pos()).Filename)
+		for _, d := range f.Decls {
+			fd, ok := d.(*ast.FuncDecl)
+			if !ok || fd.Body == nil {
+				continue
+			}
+			name := fd.Name.Name
+			if fd.Recv != nil && len(fd.Recv.List) > 0 {
+				t := fd.Recv.List[0].Type
+				if st, ok := t.(*ast.StarExpr); ok {
+					t = st.X
+				}
+				if id, ok := t.(*ast.Ident); ok {
+					name = id.Name + "." + name
+				}
+			}
+			ast.Inspect(fd.Body, func(n ast.Node) bool {
+				ce, ok := n.(*ast.CallExpr)
+				if !ok {
+					return true
+				}
+				id, ok := ce.Fun.(*ast.Ident)
+				if !ok || id.Name != "make" || len(ce.Args) < 2 {
+					return true
+				}
+				for _, a := range ce.Args[1:] {
+					if !sizeBounded(a) {
+						var tb, sb strings.Builder
+						printer.Fprint(&tb, fset, ce.Args[0])
+						printer.Fprint(&sb, fset, a)
+						sites = append(sites, fmt.Sprintf("%s:%s:%s:%s", fname, name, tb.String(), sb.String()))
+						break
+					}
+				}
+				return true
+			})
+		}
+	}
+	sort.Strings(sites)
+	var b strings.Builder
+	b.WriteString("def protocolCountSizedMakes : List String := [")
+	for i, s := range sites {
+		if i > 0 {
+			b.WriteString(", ")
+		}
+		b.WriteString(strconv.Quote(s))
+	}
+	b.WriteString("]\n")
+	return b.String()
+}
+
 func main() {
 	if len(os.Args) < 3 {
 		fmt.Fprintln(os.Stderr, "usage: fvtranslate <repo> <outdir>")
@@ -953,7 +1040,7 @@ func main() {
 		fmt.Fprintln(os.Stderr, err)
 		os.Exit(1)
 	}
-	consts := "/-! GENERATED by /verif/translator from /repo's working tree — do not edit. -/\nnamespace FV.Gen.Consts\n\n" + constants(repo) + "\nend FV.Gen.Consts\n"
+	consts := "/-! GENERATED by /verif/translator from /repo's working tree — do not edit. -/\nnamespace FV.Gen.Consts\n\n" + constants(repo) + "\n" + allocSites(repo) + "\nend FV.Gen.Consts\n"
 	if err := os.WriteFile(filepath.Join(out, "Consts.lean"), []byte(consts), 0o644); err != nil {
 		fmt.Fprintln(os.Stderr, err)
 		os.Exit(1)
